@@ -56,6 +56,10 @@ def generate(rng, tier):
         lit = b'"' + s.replace(b"\\", b"\\\\").replace(b'"', b'\\"') + b'"'
         for padn in ([0, 40, 100] if quick else [0, 10, 40, 60, 70, 80, 100, 150]):
             add(b"[" + b'"' + b"p" * padn + b'",' + lit + b"]", "string-threshold", rng.choice([0, 64, 82, 100, 256]), 0)
+    for m in (range(0, 97, 8) if quick else range(0, 97)):
+        for n in ([0, 1, 40, 80, 120, 150, 160, 161, 162, 163, 164, 165, 170, 200] if quick else range(0, 201)):
+            ctl = b"".join(b"\\u00%02x" % rng.choice([1, 2, 0x1f, 0x0b, 0]) for _ in range(n))
+            add(b'["' + b"x" * m + b'","' + ctl + b'"]', "control-heavy", rng.choice([0, 1, 64, 256, 1000]), rng.choice([0, 0, 1]))
     import struct
     for _ in range(600 if quick else 60000):
         f = struct.unpack("<d", struct.pack("<Q", rng.getrandbits(63)))[0]
